@@ -15,9 +15,13 @@ package main
 // header fits the limit but whose end-of-block code does not made Cut return
 // encodedLen == maxEncodedLen+1 with a nil error (repaired; known-findings).
 //
-// Not covered: doStored, which reserves before it advances (it assigns the
-// index directly from a length it has just compared with the remaining
-// budget); that arithmetic is not decided here.
+// doStored reserves before it advances: it assigns the index directly,
+// `c.bits.index = index + int(length)`. Rule L.budget.stored: every such plain
+// store is reached only after the data-dependent part of the new value (a
+// local the right-hand side mentions, here `length`) was either compared with
+// a budget-derived value and found to fit, or itself assigned from a
+// budget-derived value (the shortened block: `length = uint32(remaining)`).
+// The arithmetic of `remaining` itself is not decided.
 
 import (
 	"fmt"
@@ -174,6 +178,9 @@ func runC16Budget(k *gctx) {
 			if ci != nil && ci.Kind == "tagswitch" {
 				return false
 			}
+			if inner, neg := boolCond(cond); neg {
+				cond, taken = inner, !taken
+			}
 			if taken {
 				for _, a := range flattenAnd(cond) {
 					if fitsAtom(a, true) {
@@ -210,6 +217,198 @@ func runC16Budget(k *gctx) {
 			}
 		}
 	}
+	runC16BudgetStored(k, cutterObj, bitstreamObj, fMax)
 	c.Floor("L.budget", "cutter block handlers that consume bits through calls and return nil (doHuffman)", nHandlers, 1)
 	c.Floor("L.budget.calls", "bit-consuming calls in those handlers (decode x2, take x2 in doHuffman)", nCalls, 4)
+}
+
+func runC16BudgetStored(k *gctx, cutterObj, bitstreamObj types.Object, fMax *types.Var) {
+	c, g := k.c, k.g
+	fIndex := core.LookupField(bitstreamObj, "index")
+	if fIndex == nil {
+		c.Undecided("L.budget.stored", c16RelFlate+".bitstream", "field bitstream.index exists", "field not found")
+		return
+	}
+	nStores := 0
+	for _, f := range g.AllFuncs(g.Pkg(c16RelFlate)) {
+		if f.Obj == nil || f.Decl.Body == nil {
+			continue
+		}
+		sig := f.Obj.Type().(*types.Signature)
+		if sig.Recv() == nil {
+			continue
+		}
+		rt := sig.Recv().Type()
+		if p, ok := rt.Underlying().(*types.Pointer); ok {
+			rt = p.Elem()
+		}
+		if n, ok := types.Unalias(rt).(*types.Named); !ok || n.Obj() != cutterObj {
+			continue
+		}
+		info := f.Info()
+		var stores []*ast.AssignStmt
+		ast.Inspect(f.Decl.Body, func(n ast.Node) bool {
+			if as, ok := n.(*ast.AssignStmt); ok && as.Tok == token.ASSIGN && len(as.Lhs) == 1 && len(as.Rhs) == 1 && core.FieldOf(info, as.Lhs[0], fIndex) {
+				stores = append(stores, as)
+			}
+			return true
+		})
+		if len(stores) == 0 {
+			continue
+		}
+		fl := core.NewFlow(f)
+		var budget func(e ast.Expr, depth int) bool
+		budget = func(e ast.Expr, depth int) bool {
+			found := false
+			ast.Inspect(e, func(n ast.Node) bool {
+				if found {
+					return false
+				}
+				switch x := n.(type) {
+				case *ast.SelectorExpr:
+					if core.FieldOf(info, x, fMax) {
+						found = true
+					}
+				case *ast.Ident:
+					if depth > 0 {
+						if v := c15LocalVar(fl, x); v != nil {
+							defs := c15Defs(fl, v)
+							all := len(defs) > 0
+							for _, d := range defs {
+								if d.Rhs == nil || !budget(d.Rhs, depth-1) {
+									all = false
+								}
+							}
+							found = all
+						}
+					}
+				}
+				return !found
+			})
+			return found
+		}
+		for _, st := range stores {
+			// An advance is a sum (`index + int(length)`); a bare identifier on the
+			// right restores a position visited before (checkpoint, block start).
+			if be, ok := ast.Unparen(st.Rhs[0]).(*ast.BinaryExpr); !ok || be.Op != token.ADD {
+				continue
+			}
+			// data-dependent locals of the new value: mentioned by the right-hand
+			// side, not themselves budget-derived, not constants
+			var data []*types.Var
+			ast.Inspect(st.Rhs[0], func(n ast.Node) bool {
+				if id, ok := n.(*ast.Ident); ok {
+					if v := c15LocalVar(fl, id); v != nil && !budget(id, 2) {
+						data = append(data, v)
+					}
+				}
+				return true
+			})
+			if len(data) == 0 {
+				continue // re-alignment or checkpoint restore: no data-dependent advance
+			}
+			nStores++
+			mentionsData := func(e ast.Expr) bool {
+				hit := false
+				ast.Inspect(e, func(n ast.Node) bool {
+					if id, ok := n.(*ast.Ident); ok {
+						v := c15LocalVar(fl, id)
+						for _, d := range data {
+							if v == d {
+								hit = true
+							}
+						}
+					}
+					return !hit
+				})
+				return hit
+			}
+			fits := func(a ast.Expr, taken bool) bool {
+				l, r, op, ok := c15Cmp(a)
+				if !ok || op == token.EQL || op == token.NEQ {
+					return false
+				}
+				lb, rb := budget(l, 2), budget(r, 2)
+				if lb == rb {
+					return false
+				}
+				other := l
+				if lb {
+					other = r
+					switch op {
+					case token.LSS:
+						op = token.GTR
+					case token.LEQ:
+						op = token.GEQ
+					case token.GTR:
+						op = token.LSS
+					case token.GEQ:
+						op = token.LEQ
+					}
+				}
+				if !mentionsData(other) {
+					return false
+				}
+				if op == token.GTR || op == token.GEQ {
+					return !taken
+				}
+				return taken
+			}
+			target := st
+			esc, visited := fl.Escapes(core.Query{
+				Exit: func(n ast.Node) bool { return n == ast.Node(target) },
+				Events: []core.Event{
+					{Edge: func(cond ast.Expr, ci *core.CondInfo, taken bool) bool {
+						if ci != nil && ci.Kind == "tagswitch" {
+							return false
+						}
+						if inner, neg := boolCond(cond); neg {
+							cond, taken = inner, !taken
+						}
+						if taken {
+							for _, a := range flattenAnd(cond) {
+								if fits(a, true) {
+									return true
+								}
+							}
+							return false
+						}
+						for _, a := range flattenOr(cond) {
+							if fits(a, false) {
+								return true
+							}
+						}
+						return false
+					}},
+					{Node: func(n ast.Node) bool {
+						as, ok := n.(*ast.AssignStmt)
+						if !ok || len(as.Lhs) != len(as.Rhs) || (as.Tok != token.ASSIGN && as.Tok != token.DEFINE) {
+							return false
+						}
+						for i, l := range as.Lhs {
+							v := c15LocalVar(fl, l)
+							for _, d := range data {
+								if v == d && budget(as.Rhs[i], 2) {
+									return true
+								}
+							}
+						}
+						return false
+					}},
+				},
+			})
+			var names []string
+			for _, d := range data {
+				names = append(names, d.Name())
+			}
+			anchor := fmt.Sprintf("%s[store #%d: %s]", f.Name(), nStores, core.Src(g.Fset, st))
+			claim := "a plain store that advances the bit reader's index by a data-dependent amount (" + strings.Join(names, ", ") + ") is reached only after that amount was compared with a maxEncodedLen-derived value and fits, or was itself assigned from one"
+			if len(esc) > 0 {
+				c.Fail("L.budget.stored", anchor, claim, visited+1, g.Pos(st.Pos())+": "+esc[0].String())
+			} else {
+				c.Pass("L.budget.stored", anchor, claim, visited+1, g.Pos(st.Pos()))
+			}
+		}
+	}
+	c.Floor("L.budget.stored", "data-dependent plain stores to bitstream.index in cutter methods (two in doStored)", nStores, 2)
 }
